@@ -54,6 +54,7 @@ def run(rep: core.Report):
     rep.rule("R18a", "table closure: every option dest is forwarded (or handled directly), every forwarded key has a parse_conf handler, every parameter has a set_settings consumer calling an existing setter, every settings.<x> read by the scripts exists", 300)
     rep.rule("R18b", "encoding agreement: what read_options stores for a key (.true./.false. literal, joined list, raw typed value) is what the key's parse_conf handler parses; store_false flags forward the negated literal", 90)
     rep.rule("R18c", "guard kind: a numeric option (type=int|float, default None) is forwarded under 'is not None', so an explicit 0 reaches the settings exactly as the tag 'KEY = 0' does", 15)
+    rep.rule("R18e", "silence of the option route: an option that was not typed forwards nothing, so a tag from the configuration file survives the option pass -- the parser default of every forwarded dest does not satisfy the guard under which read_options forwards it", 100)
     rep.rule("R18d", "the fc-calculator default split between phonopy-load and phonopy is decided in one place", 1)
 
     dests = tables.argparse_dests()
@@ -160,6 +161,23 @@ def run(rep: core.Report):
         rep.instance("R18c", SETT, f"{f.cls}.read_options", f"numeric option '{f.dest}' ({d.type_}) forwarded to '{f.conf_key}' under '{f.guard}'", ok,
                      f"'{' '.join(d.flags[:1])} 0' is dropped by the truthiness test although the tag {f.conf_key.upper()} = 0 is honoured: option and tag do not mean the same", line=f.line)
 
+    # R18e an untyped option is silent
+    every = tables.argparse_all()
+    for f, d in [(f, d) for f in fw for d in every if d.dest == f.dest]:
+        if d.default is None:
+            dv = {"store_true": False, "store_false": True}.get(d.action)
+        else:
+            try:
+                dv = ast.literal_eval(d.default)
+            except (ValueError, SyntaxError):
+                rep.unknown(f"R18e default of '{f.dest}' is not a literal: {d.default}")
+                continue
+        passes = {"is not None": dv is not None, "truthy": bool(dv), "falsy": not dv, "is True": dv is True, "is False": dv is False}.get(f.guard)
+        if passes is None:
+            continue
+        rep.instance("R18e", ARGP, "get_parser", f"default {dv!r} of '{f.dest}' ({' '.join(d.flags[:1])}) does not pass the forwarding guard '{f.guard}' (-> confs['{f.conf_key}'] = {f.value})", not passes,
+                     f"without {' '.join(d.flags[:1])} on the command line args.{f.dest} is {dv!r}, read_options still stores confs['{f.conf_key}'] = {f.value} and the tag {f.conf_key.upper()} of the configuration file is overridden: option route and file route no longer agree", line=d.line)
+
     # R18d fc calculator default
     src_script = core.read(SCRIPT)
     sites = [m.start() for m in re.finditer(r"fc_calculator\s*=\s*[\"']symfc[\"']|[\"']symfc[\"']", src_script)]
@@ -187,6 +205,8 @@ def selftest():
     b("consumer renamed", SETT, 'if "dm_decimals" in params:', 'if "dynmat_decimals" in params:', "R18a", "decimals")
     b("setter call misspelt", SETT, "self._settings.set_sigma(params[\"sigma\"])", "self._settings.set_sigmas(params[\"sigma\"])", "R18a", "set_sigmas")
     b("numeric option back under truthiness", SETT, "            if self._args.tmax is not None:", "            if self._args.tmax:", "R18c", "tmax")
+    b("documented default moved into the parser", ARGP, '"--nac-method",\n        dest="nac_method",\n        default=None,', '"--nac-method",\n        dest="nac_method",\n        default="gonze",', "R18e", "nac_method")
+    b("store_false flag loses its None default", ARGP, 'dest="is_nac",\n            action="store_false",\n            default=None,', 'dest="is_nac",\n            action="store_false",', "R18e", "is_nac")
     b("negative flag forwards .true.", SETT, '            if self._args.is_nomeshsym:\n                self._confs["mesh_symmetry"] = ".false."', '            if self._args.is_nomeshsym:\n                self._confs["mesh_symmetry"] = ".true."', "R18b", "mesh_symmetry")
     b("script reads a settings key that does not exist", SCRIPT, "settings.is_mesh_symmetry", "settings.is_mesh_symmetric", "R18a", "is_mesh_symmetric", nth=0)
     n("reorder two handlers", SETT, 'if conf_key == "fpitch":', 'if conf_key == "fpitch" and True:')
